@@ -116,7 +116,32 @@ func (x *Exec) step(fr *Frame, st *State, ins ssa.Instruction, cont func(*Frame,
 	case *ssa.Select:
 		fr.vals[in] = x.selectOp(fr, st, in)
 	case *ssa.SliceToArrayPointer:
-		unsupported("slice to array pointer")
+		// (*[n]byte)(s): modelled as a pointer to a copy of the first n bytes (reads only)
+		s, ok := x.operand(fr, st, in.X).(*SliceV)
+		at := in.Type().(*types.Pointer).Elem()
+		n := byteArrayLen(at)
+		if !ok || n <= 0 {
+			unsupported("slice to array pointer of %s", in.Type())
+		}
+		enough := BVCmp("bvuge", s.Len, BVConstU(uint64(n), 64))
+		x.emitSafe(fr, st, "slice", enough, in.Pos())
+		st.Assume(enough)
+		bt := types.Typ[types.Uint8]
+		var v *Term
+		for i := 0; i < n; i++ {
+			b := x.loadElem(st, s.Base, BVBin("bvadd", s.Off, BVConstU(uint64(i), 64)), bt).(*Term)
+			if v == nil {
+				v = b
+			} else {
+				v = Concat(v, b)
+			}
+		}
+		v = x.nameTerm(st, v, "arrbytes")
+		ref := x.newRef(st, "s2a")
+		p := &PtrV{Ref: ref, Elem: at}
+		x.StoreTo(st, p, v)
+		x.note("slice-to-array-pointer conversion modelled as a copy (writes through it do not reach the slice)")
+		fr.vals[in] = p
 	default:
 		unsupported("instruction %T in %s", ins, funcKey(fr.fn))
 	}
